@@ -189,6 +189,12 @@ VARIANTS = [
     V("singleton-group shortcut hands NaN on for nancumsum", ("C10",), "R-KINDMISSING", "core.py", '        if agg.mode == "apply_binary_op" and array.dtype.kind in "fc":\n            # a NaN-skipping accumulation (nancumsum) of a lone NaN is the identity\n            array = np.where(np.isnan(array), agg.identity, array)\n', '', must_mention="singleton"),
     # ---------------- R-COMBINEBYPASS (C02, C12)
     V("grouped combine skips the second reduction when no label recurs", ("C02", "C12"), "R-COMBINEBYPASS", "core.py", '        avoid_reduction = array_idx[0].shape[axis[0]] == 1\n', '        avoid_reduction = len(_unique(groups)) == groups.size\n', must_mention="value-dependent"),
+    # ---------------- R-FINITE (C04, C20): zero instances on the tree, this is the positive example
+    V("nanfirst combine treats infinities as missing", ("C04", "C20"), "R-FINITE", "xrutils.py", '    idx_first = np.argmax(~isnull(values), axis=axis)', '    idx_first = np.argmax(np.isfinite(values), axis=axis)', must_mention="nanfirst"),
+    V("twin: finiteness used only to validate an argument", ("C04", "C20"), "", "xrutils.py", '    idx_first = np.argmax(~isnull(values), axis=axis)', '    if not np.isfinite(axis):\n        raise ValueError("axis must be finite")\n    idx_first = np.argmax(~isnull(values), axis=axis)', expect="silent"),
+    # ---------------- R-DISPATCH rename clause (C01, C18), R-COLLIDE identity-as-absence clause (C20)
+    V("extreme quantiles renamed to nanmin / nanmax for the NaN-propagating quantile too", ("C01", "C18"), "R-DISPATCH", "aggregations.py", '    if engine == "flox":\n        try:\n            method = getattr(aggregate_flox, func)', '    if func in ["quantile", "nanquantile"] and kwargs.get("q") in (0, 1):\n        func = "nanmax" if kwargs.pop("q") == 1 else "nanmin"\n\n    if engine == "flox":\n        try:\n            method = getattr(aggregate_flox, func)', must_mention="discipline"),
+    V("absent groups detected by comparing the result with the padding identity", ("C20",), "R-COLLIDE", "core.py", '    results = combine(x_chunk, agg, axis, keepdims, is_aggregate=True)\n    return _finalize_results(results, agg, axis, expected_groups, reindex=reindex)', '    results = combine(x_chunk, agg, axis, keepdims, is_aggregate=True)\n    finalized = _finalize_results(results, agg, axis, expected_groups, reindex=reindex)\n    (identity,) = agg.fill_value["intermediate"][:1]\n    finalized[agg.name] = np.where(finalized[agg.name] == identity, fill_value, finalized[agg.name])\n    return finalized', must_mention="identity"),
     # ---------------- R-LOOPSTORE (C09, C19)
     V("cohort map overwrites a repeated block set", ("C09", "C19"), "R-LOOPSTORE", "core.py", '        merged_cohorts[chunk] = sorted(merged_cohorts.get(chunk, []) + cohort)', '        merged_cohorts[chunk] = cohort', must_mention="merged_cohorts"),
     V("twin: cohort map merges under an explicit membership test", ("C09", "C19", "C02"), "", "core.py", '        merged_cohorts[chunk] = sorted(merged_cohorts.get(chunk, []) + cohort)',
